@@ -14,14 +14,15 @@ use zipora::containers::specialized::{
 use zipora::fsa::cache::{CacheStrategy, FsaCache, FsaCacheConfig};
 
 const HEADER: &str = r#"From ZV.Common Require Import Base Run.
-From ZV.C17 Require Import Spec Model ModelInval.
+From ZV.C17 Require Import Spec Model ModelInval ModelBlob.
 Open Scope N_scope.
 Inductive case_t : Type :=
 | CLru (cap : N) (ops : list (N * N * N)) (expect : list (list Z))
 | CCmap (percap : N) (nshards : nat) (route : list (N * N)) (ops : list (N * N * N)) (expect : list (list Z))
 | CPc (ps capbytes : N) (fs : list (N * (N * N))) (ops : list (N * N * N * N)) (expect : list (list N))
 | CPx (ps capbytes : N) (fs : list (N * (N * N))) (ops : list (N * N * N * N)) (expect : list (list N))
-| CPs (ps capbytes : N) (fs : list (N * (N * N))) (ops : list (N * N * N * N)) (expect : list (list N)).
+| CPs (ps capbytes : N) (fs : list (N * (N * N))) (ops : list (N * N * N * N)) (expect : list (list N))
+| CBlob (ps capbytes : N) (fs : list (N * (N * N))) (rf vfid strategy : N) (ops : list (N * N * N)) (expect : list (list N)).
 Fixpoint eqb_llz (a b : list (list Z)) : bool :=
   match a, b with
   | [], [] => true
@@ -41,6 +42,7 @@ Definition ok (c : case_t) : bool :=
   | CPc ps capbytes fs ops expect => eqb_lln (pc_case ps capbytes fs ops) expect
   | CPx ps capbytes fs ops expect => eqb_lln (px_case ps capbytes fs ops) expect
   | CPs ps capbytes fs ops expect => eqb_lln (ps_case ps capbytes fs ops) expect
+  | CBlob ps capbytes fs rf vfid strategy ops expect => eqb_lln (blob_case ps capbytes fs rf vfid strategy ops) expect
   end.
 "#;
 
@@ -49,6 +51,7 @@ struct Ctx { sum: Summary, shards: CoqShards, terms: Vec<Vec<(String, Value)>>, 
              budget_x: [usize; 8], n_x: [usize; 8] }
 const T_PX: usize = 3;
 const T_PS: usize = 4;
+const T_BLOB: usize = 5;
 
 // ---------------------------------------------------------------------------------------------
 // the property, told as dumbly as possible: entries with the time of their last get/put
@@ -626,17 +629,22 @@ fn gen_pops(r: &mut Rng, files: &[(u64, u64)], n: usize, with_overwrite: bool, e
 // ---------------------------------------------------------------------------------------------
 type BOp = (u8, u64, u64); // 0 put(len a, seed b) | 1 get(a-th id) | 2 remove(a-th id) | 3 flush | 4 prefetch_range(a, b) | 5 disable | 6 enable
                            // 7 set strategy a | 8 read the shared file through the shared cache (off a, len b)
+                           // 9 rewrite [a, a+b) of the shared file and invalidate that range in the shared cache
 fn bops_json(ops: &[BOp]) -> Value { json!(ops.iter().map(|o| json!([o.0, o.1, o.2])).collect::<Vec<_>>()) }
 
-fn blob_history(cx: &mut Ctx, strategy: u64, preset: u64, capbytes: usize, shared: bool, ops: &[BOp]) {
+fn blob_history(cx: &mut Ctx, strategy: u64, preset: u64, capbytes: usize, shared: bool, ops: &[BOp], force: bool) {
     let sname = ["WriteThrough", "WriteBack", "WriteAround"][(strategy % 3) as usize];
     let cell = format!("CachedBlobStore/{}{}", sname, if shared { "/shared-cache" } else { "" });
     cx.sum.eval(&cell, &format!("blob {} {} {} {} {:?}", strategy, preset, capbytes, shared, ops), ops.len() >= 3);
-    cx.sum.cell_status(&cell, "S-only");
     let cj = json!({"cell": "blob", "strategy": strategy, "preset": preset, "capbytes": capbytes, "shared": shared, "ops": bops_json(ops)});
     let strat = |s: u64| match s % 3 { 1 => CacheWriteStrategy::WriteBack, 2 => CacheWriteStrategy::WriteAround, _ => CacheWriteStrategy::WriteThrough };
     let mut fails: Vec<String> = vec![];
     let mut shared_file: Option<(String, Vec<u8>)> = None;
+    // every call made on the store / the shared cache, in the encoding of ModelBlob.dec_bop, with what it returned
+    let mut mops: Vec<String> = vec![];
+    let mut mobs: Vec<String> = vec![];
+    let mut real_fid: u32 = 0;
+    let flen = 3 * PAGE_SIZE as u64 + 17;
     let r = guarded(|| -> Result<(), String> {
         let e = |x: zipora::error::ZiporaError| format!("{:?}", x);
         let mut shared_cache: Option<(Arc<LruPageCache>, u32)> = None;
@@ -644,9 +652,10 @@ fn blob_history(cx: &mut Ctx, strategy: u64, preset: u64, capbytes: usize, share
             let cache = Arc::new(LruPageCache::new(pc_config(preset, capbytes)).map_err(e)?);
             cx.fileno += 1;
             let p = format!("{}/b{}", cx.tmp, cx.fileno);
-            let data = gen_file(5, 3 * PAGE_SIZE as u64 + 17);
+            let data = gen_file(5, flen);
             std::fs::write(&p, &data).map_err(|x| x.to_string())?;
             let fid = cache.open_file(&p).map_err(e)?;
+            real_fid = fid;
             shared_file = Some((p, data));
             shared_cache = Some((cache.clone(), fid));
             CachedBlobStore::with_cache_and_strategy(MemoryBlobStore::new(), cache, strat(strategy)).map_err(e)?
@@ -655,50 +664,83 @@ fn blob_history(cx: &mut Ctx, strategy: u64, preset: u64, capbytes: usize, share
         };
         let mut ids: Vec<u32> = vec![];
         let mut shadow: HashMap<u32, Vec<u8>> = HashMap::new();
+        let mut get = |store: &CachedBlobStore<MemoryBlobStore>, id: u32, mops: &mut Vec<String>, mobs: &mut Vec<String>| -> Option<Vec<u8>> {
+            let got = store.get(id).ok();
+            mops.push(format!("(1, {}, 0)", id));
+            mobs.push(match &got { Some(g) => { let mut d = vec![1u128]; d.extend(digest(g)); coq_n_list(d) } None => coq_n_list(vec![0u128]) });
+            got
+        };
         for &(c, a, b) in ops {
             match c {
                 0 => { let data = gen_file(b, a); let id = store.put(&data).map_err(e)?;
+                       mops.push(format!("(0, {}, {})", a, b)); mobs.push(coq_n_list(vec![1u128, id as u128]));
                        if shadow.contains_key(&id) { fails.push(format!("put returned id {} which is still in use", id)); }
                        shadow.insert(id, data); ids.push(id); }
                 1 | 2 => {
                     if ids.is_empty() { continue; }
                     let id = ids[(a as usize) % ids.len()];
                     if c == 1 {
-                        let got = store.get(id).ok();
+                        let got = get(&store, id, &mut mops, &mut mobs);
                         let inner = store.inner().get(id).ok();
                         let want = shadow.get(&id).cloned();
                         if got != inner { fails.push(format!("get({}) returned {:?} bytes, the wrapped store returns {:?} bytes", id, got.as_ref().map(|g| g.len()), inner.as_ref().map(|g| g.len()))); }
                         else if got != want { fails.push(format!("get({}) differs from the bytes put", id)); }
-                        if store.size(id).ok().flatten() != want.as_ref().map(|w| w.len()) { fails.push(format!("size({}) wrong", id)); }
-                        if store.contains(id) != want.is_some() { fails.push(format!("contains({}) wrong", id)); }
+                        let sz = store.size(id).ok().flatten();
+                        mops.push(format!("(9, {}, 0)", id)); mobs.push(coq_n_list(match sz { Some(n) => vec![1u128, n as u128], None => vec![0u128] }));
+                        if sz != want.as_ref().map(|w| w.len()) { fails.push(format!("size({}) wrong", id)); }
+                        let has = store.contains(id);
+                        mops.push(format!("(10, {}, 0)", id)); mobs.push(coq_n_list(vec![has as u128]));
+                        if has != want.is_some() { fails.push(format!("contains({}) wrong", id)); }
                     } else {
                         let was = shadow.remove(&id).is_some();
                         let r = store.remove(id);
+                        mops.push(format!("(2, {}, 0)", id)); mobs.push(coq_n_list(vec![r.is_ok() as u128]));
                         if r.is_ok() != was { fails.push(format!("remove({}) = {:?}, present = {}", id, r.is_ok(), was)); }
-                        if store.get(id).is_ok() { fails.push(format!("get({}) after remove still returns data", id)); }
+                        if get(&store, id, &mut mops, &mut mobs).is_some() { fails.push(format!("get({}) after remove still returns data", id)); }
                     }
                 }
-                3 => { store.flush().map_err(e)?; }
-                4 => { store.prefetch_range(a, b as usize).map_err(e)?; }
-                5 => store.disable_cache(),
-                6 => store.enable_cache(),
-                7 => store.set_write_strategy(strat(a)),
-                _ => { if let (Some((cache, fid)), Some((_, data))) = (&shared_cache, &shared_file) {
+                3 => { store.flush().map_err(e)?; mops.push("(3, 0, 0)".into()); mobs.push(coq_n_list(Vec::<u128>::new())); }
+                4 => { store.prefetch_range(a, b as usize).map_err(e)?; mops.push(format!("(4, {}, {})", a, b)); mobs.push(coq_n_list(Vec::<u128>::new())); }
+                5 => { store.disable_cache(); mops.push("(5, 0, 0)".into()); mobs.push(coq_n_list(Vec::<u128>::new())); }
+                6 => { store.enable_cache(); mops.push("(6, 0, 0)".into()); mobs.push(coq_n_list(Vec::<u128>::new())); }
+                7 => { store.set_write_strategy(strat(a)); mops.push(format!("(7, {}, 0)", a % 3)); mobs.push(coq_n_list(Vec::<u128>::new())); }
+                8 => { if let (Some((cache, fid)), Some((_, data))) = (&shared_cache, &shared_file) {
                            let got = cache.read(*fid, a, b as usize).map_err(e)?.data().to_vec();
+                           mops.push(format!("(8, {}, {})", a, b)); mobs.push(coq_n_list(digest(&got)));
                            let s = (a as usize).min(data.len()); let en = (a as usize + b as usize).min(data.len());
-                           if got != data[s..en] { fails.push(format!("shared cache: read(real file, {}, {}) returned {} bytes, the file has {}", a, b, got.len(), en - s)); }
+                           if got != data[s..en] { fails.push(format!("shared cache: read(real file, {}, {}) returned {} bytes, the file has {}{}", a, b, got.len(), en - s, if got.len() == en - s { " (different bytes)" } else { "" })); }
+                       } }
+                _ => { if let (Some((cache, fid)), Some((p, data))) = (&shared_cache, &mut shared_file) {
+                           let s = (a as usize).min(data.len()); let en = (a as usize + b as usize).min(data.len());
+                           if s < en {
+                               for (i, x) in data[s..en].iter_mut().enumerate() { *x = x.wrapping_mul(3).wrapping_add(i as u8).wrapping_add(101); }
+                               std::fs::write(&*p, &*data).map_err(|x| x.to_string())?;
+                               cache.invalidate_range(*fid, s as u64, en - s).map_err(e)?;
+                               mops.push(format!("(12, {}, {})", s, en - s)); mobs.push(coq_n_list(Vec::<u128>::new()));
+                           }
                        } }
             }
-            if store.len() != shadow.len() { fails.push(format!("len() = {}, {} blobs stored", store.len(), shadow.len())); }
+            let n = store.len();
+            mops.push("(11, 0, 0)".into()); mobs.push(coq_n_list(vec![n as u128]));
+            if n != shadow.len() { fails.push(format!("len() = {}, {} blobs stored", n, shadow.len())); }
         }
-        for (&id, want) in &shadow {
-            if store.get(id).ok().as_ref() != Some(want) { fails.push(format!("at the end get({}) differs from the bytes put", id)); break; }
+        let mut left: Vec<u32> = shadow.keys().copied().collect();
+        left.sort();
+        for id in left {
+            if get(&store, id, &mut mops, &mut mobs).as_ref() != shadow.get(&id) { fails.push(format!("at the end get({}) differs from the bytes put", id)); break; }
         }
         Ok(())
     });
     if let Some((p, _)) = &shared_file { let _ = std::fs::remove_file(p); }
-    match r { Ok(Ok(())) => {}, Ok(Err(e)) => fails.push(format!("operation failed: {}", e)), Err(p) => fails.push(format!("panicked: {}", p)) }
-    if let Some(f) = fails.first() { cx.sum.fail(&cell, None, cj, f); }
+    let mut modelled = true;
+    match r { Ok(Ok(())) => {}, Ok(Err(e)) => { fails.push(format!("operation failed: {}", e)); modelled = false; } Err(p) => { fails.push(format!("panicked: {}", p)); modelled = false; } }
+    if let Some(f) = fails.first() { cx.sum.fail(&cell, None, cj.clone(), f); }
+    if modelled && (force || cx.n_x[T_BLOB] < cx.budget_x[T_BLOB]) {
+        cx.n_x[T_BLOB] += 1;
+        // register_file(-1) takes the next file id: 1 on a cache of its own, 2 behind the one real file of the shared cache
+        let (fs, rf, vfid) = if shared { (format!("[({}, (5, {}))]", real_fid, flen), real_fid, real_fid + 1) } else { ("[]".to_string(), 0, 1) };
+        cx.terms[T_BLOB].push((format!("CBlob {} {} {} {} {} {} [{}] [{}]", PAGE_SIZE, pc_config(preset, capbytes).capacity, fs, rf, vfid, strategy % 3, mops.join("; "), mobs.join("; ")), cj));
+    }
 }
 
 fn gen_bops(r: &mut Rng, n: usize, shared: bool) -> Vec<BOp> {
@@ -714,7 +756,7 @@ fn gen_bops(r: &mut Rng, n: usize, shared: bool) -> Vec<BOp> {
         else if c < 87 { ops.push((5, 0, 0)); }
         else if c < 91 { ops.push((6, 0, 0)); }
         else if c < 94 { ops.push((7, r.below(3), 0)); }
-        else if shared { ops.push((8, r.below(3 * ps + 40), r.below(2 * ps))); }
+        else if shared { if r.chance(1, 4) { ops.push((9, r.below(3 * ps + 17), 1 + r.below(ps + 200))); } ops.push((8, r.below(3 * ps + 40), r.below(2 * ps))); }
         else { ops.push((1, r.below(16), 0)); }
     }
     ops
@@ -769,7 +811,7 @@ fn run_one(cx: &mut Ctx, c: &Value) {
             if files.is_empty() { return; }
             pc_history(cx, c["single"].as_bool().unwrap_or(false), u("preset"), u("capbytes") as usize, &files, &parse_pops(&c["ops"]), true)
         }
-        Some("blob") => blob_history(cx, u("strategy"), u("preset"), u("capbytes") as usize, c["shared"].as_bool().unwrap_or(false), &parse_ops(&c["ops"])),
+        Some("blob") => blob_history(cx, u("strategy"), u("preset"), u("capbytes") as usize, c["shared"].as_bool().unwrap_or(false), &parse_ops(&c["ops"]), true),
         Some("fsa") => fsa_history(cx, u("max_states") as usize, u("strategy"), &parse_ops(&c["ops"])),
         _ => {}
     }
@@ -923,7 +965,7 @@ pub fn run(args: &Args) {
         let n = rng.range(3, 30) as usize;
         let ops = gen_bops(&mut rng, n, shared);
         let capbytes = *rng.pick(&[ps as usize, 2 * ps as usize, 16 * ps as usize]);
-        blob_history(&mut cx, rng.below(3), rng.below(4), capbytes, shared, &ops);
+        blob_history(&mut cx, rng.below(3), rng.below(4), capbytes, shared, &ops, false);
     }
     let n_fsa = if th { 2000 } else { 200 };
     for _ in 0..n_fsa {
